@@ -4432,6 +4432,7 @@ async fn handle_connected_state_no_dtls(
                                     if let Some(sctp) = inner.sctp_transport.lock().as_ref() {
                                         sctp.close();
                                     }
+                                    inner.close_data_channels();
                                 }
                                 debug!("ICE disconnect grace expired, cycling transport");
                                 return true;
@@ -4551,6 +4552,10 @@ async fn handle_connected_state(
                                                 });
                                                 inner.set_peer_state(PeerConnectionState::Disconnected);
                                                 let _ = ice_connection_state_tx.send(IceConnectionState::Disconnected);
+                                                // DTLS is gone for good and this loop returns: channels that have no
+                                                // SCTP association to close them (created on a connection negotiated
+                                                // without an application section) must not keep their readers waiting.
+                                                inner.close_data_channels();
                                                 return false;
                                             }
                                         } else {
@@ -4573,6 +4578,8 @@ async fn handle_connected_state(
                                             if let Some(sctp) = inner.sctp_transport.lock().as_ref() {
                                                 sctp.close();
                                             }
+                                            // Same for channels that never had an association.
+                                            inner.close_data_channels();
                                             debug!("ICE disconnect grace expired, cycling transport");
                                             return true;
                                         }
@@ -4637,6 +4644,8 @@ async fn handle_connected_state(
                                             if let Some(sctp) = inner.sctp_transport.lock().as_ref() {
                                                 sctp.close();
                                             }
+                                            // Same for channels that never had an association.
+                                            inner.close_data_channels();
                                             debug!("ICE disconnect grace expired, cycling transport");
                                             return true;
                                         }
